@@ -149,6 +149,7 @@ func defaultInitPkgs() map[string]bool {
 		"github.com/ClickHouse/ch-go/chpool":   true,
 		"strings":                              true,
 		"strconv":                              true,
+		"time":                                 true,
 	}
 }
 
